@@ -192,6 +192,20 @@ func genC15(t *rapid.T) *C15Case {
 		n := rapid.IntRange(0, 4).Draw(t, "nfrag")
 		var sb strings.Builder
 		for i := 0; i < n; i++ {
+			if rapid.IntRange(0, 3).Draw(t, "anybytes") == 0 {
+				// a '%' followed by two bytes taken from the whole range: hex digits next to their neighbours in the byte
+				// table ('/' ':' '@' 'G' '`' 'g'), to the same characters with one bit flipped (0x10-0x19, 0x50..), to NUL and 0xff
+				near := []byte{'0', '9', 'a', 'f', 'A', 'F', '/', ':', '@', 'G', '`', 'g', 0x10, 0x11, 0x19, 0x1a, 0x21, 0x26, 0x41 ^ 0x80, 0x30 ^ 0x80, 0x00, 0xff, 'P', 'p', 0x70, 0x79}
+				sb.WriteByte('%')
+				for k := 0; k < 2; k++ {
+					if rapid.Bool().Draw(t, "nearhex") {
+						sb.WriteByte(rapid.SampledFrom(near).Draw(t, "nearb"))
+					} else {
+						sb.WriteByte(rapid.Byte().Draw(t, "anyb"))
+					}
+				}
+				continue
+			}
 			sb.WriteString(rapid.SampledFrom(frags).Draw(t, "frag"))
 		}
 		c.Input = []byte(sb.String())
